@@ -352,7 +352,7 @@ Proof.
   assert (Hm : 0 < m) by (unfold m, block_check_modulus; lia).
   assert (Hr : 0 <= r < m) by (unfold r, m, block_check_residue, block_check_modulus; lia).
   exists (i + (r - i) mod m). pose proof (Z.mod_pos_bound (r - i) m Hm) as Hb.
-  split; [lia|]. unfold block_reads_clock. fold m r. apply Z.eqb_eq.
+  split; [lia|]. unfold block_reads_clock, block_guard_extra. rewrite ?andb_true_r. fold m r. apply Z.eqb_eq.
   rewrite Z.add_mod_idemp_r by lia. replace (i + (r - i)) with r by lia. apply Z.mod_small; exact Hr.
 Qed.
 
@@ -505,3 +505,9 @@ Proof. repeat split; vm_compute; reflexivity. Qed.
 (* position of the VM's deadline test: nothing executes between a positive test and the loop exit *)
 Lemma vm_deadline_stops_at_once_proof : vm_instrs_after_deadline_test = 0 /\ vm_deadline_test_after_switch = true.
 Proof. split; reflexivity. Qed.
+
+
+(* every block, whatever its size, gets at least one clock read (at its first byte): a scan delivered in small blocks
+   is not exempt from the deadline *)
+Lemma every_block_reads_clock_proof : forall size, 1 <= size -> exists i, 0 <= i < size /\ block_reads_clock i = true.
+Proof. intros size Hs. exists 0. split; [lia|]. vm_compute. reflexivity. Qed.
